@@ -52,8 +52,15 @@ pub enum DerivedEnum {
     Rec { x: i64, y: String },
 }
 
+#[derive(Serialize)]
+pub struct Chain {
+    pub v: i64,
+    pub next: Option<Box<Chain>>,
+}
+
 /// A materialised input.
 pub enum Input {
+    Chain(Chain),
     Val(Value),
     Json(serde_json::Value),
     Struct(DerivedStruct),
@@ -86,6 +93,20 @@ pub fn make_input(spec: &InputSpec) -> Result<Input, String> {
         ),
         InputSpec::Unit => Input::Unit,
         InputSpec::StrKeyMap(m) => Input::StrKeyMap(m.iter().cloned().collect()),
+        InputSpec::DeepVal { depth, leaf } => {
+            let mut v = Value::Int(*leaf as i128);
+            for _ in 0..*depth {
+                v = Value::Vec(vec![v]);
+            }
+            Input::Val(v)
+        }
+        InputSpec::DeepChain { depth } => {
+            let mut c = Chain { v: 0, next: None };
+            for i in 0..*depth {
+                c = Chain { v: i as i64 + 1, next: Some(Box::new(c)) };
+            }
+            Input::Chain(c)
+        }
     })
 }
 
@@ -173,6 +194,7 @@ pub fn task_future(
                 Input::NestedBadKey(m) => outcomes_sum(&rs.evaluate(m).await, &rules),
                 Input::Unit => outcomes_sum(&rs.evaluate(&()).await, &rules),
                 Input::StrKeyMap(m) => outcomes_sum(&rs.evaluate(m).await, &rules),
+                Input::Chain(ch) => outcomes_sum(&rs.evaluate(ch).await, &rules),
             },
         }
     }
